@@ -130,6 +130,22 @@ def opRun {O S : Type} (φ : O → S → S) : List O → S → S
 def whStep {S C : Type} (kepler inter : C → S → S) (half : C → C) (τ : C) (s : S) : S :=
   kepler (half τ) (inter τ (kepler (half τ) s))
 
+/-! ### unsynchronised stepping (`safe_mode = 0`): integrator_whfast.c part1 ("Combined DRIFT step" when a half step is
+    pending, first half drift otherwise), part2 (kick, `is_synchronized = 0`), `reb_integrator_whfast_synchronize` (the
+    pending half drift with the current `r->dt`, whichever public call asks for it: `reb_simulation_synchronize` or
+    `reb_simulation_integrate` with nothing left to integrate) -/
+
+structure Pend (S : Type) where
+  x : S
+  /-- `!is_synchronized`: the closing half drift of the last step has not been done yet -/
+  pending : Bool
+
+def uStep {S C : Type} (kepler inter : C → S → S) (half : C → C) (τ : C) (u : Pend S) : Pend S :=
+  ⟨inter τ (if u.pending then kepler τ u.x else kepler (half τ) u.x), true⟩
+
+def uSync {S C : Type} (kepler : C → S → S) (half : C → C) (τ : C) (u : Pend S) : Pend S :=
+  if u.pending then ⟨kepler (half τ) u.x, false⟩ else u
+
 /-- n applications -/
 def iter {S : Type} (f : S → S) : Nat → S → S
   | 0, s => s
